@@ -167,6 +167,32 @@ def main(argv):
                     ufail.append({"program": "resource-outlives-boundary", "schedule": sched, "failures": bad[:3], "output": body})
         chk.obligation("oracle: a boundary under which a Resource was read is disposed at every position of %d histories: no panic then or at any later refetch / completion, the "
                        "resource goes on unchanged" % (len(ucases)), not ufail, str(ufail[:1]))
+    # a guard taken by an effect that a cleanup re-runs in the middle of the disposal of the boundary (oracle only: no panic at any step)
+    flips = [[("scope", 9, [("sus", 1, [("flip", 1)])])],
+             [("sus", 1, [("scope", 9, [("flip", 1), ("task", 1, 1)])])],
+             [("scope", 9, [("sus", 1, [("scope", 8, [("flip", 1)]), ("sus", 2, [("flip", 2), ("task", 1, 2)])])])],
+             [("scope", 9, [("sus", 1, [("flip", 1), ("res", 1, 1)])])]]
+    fcases = []
+    for prog in flips:
+        sids = [9, 8, 1, 2]
+        text_nodes = asyncgen.sx_nodes(prog)
+        for sid in sids:
+            if ("scope %d" % sid) in text_nodes or ("sus %d" % sid) in text_nodes:
+                fcases.append((prog, [("dispose", sid)]))
+                fcases.append((prog, [("go", 1), ("dispose", sid), ("go", 1)]))
+    ffail = []
+    try:
+        fimpl = asyncgen.run_impl(binp, fcases)
+        for (prog, steps), lines in zip(fcases, fimpl):
+            if any("PANIC" in l for l in lines):
+                ffail.append({"program": asyncgen.sx_nodes(prog), "schedule": asyncgen.sx_steps(steps),
+                              "failures": [{"what": "panic at the disposal of a boundary (a cleanup re-ran an effect that takes a suspense guard while the boundary was being disposed)"}], "output": lines})
+    except RuntimeError as e:
+        ffail.append({"program": "flip", "schedule": "", "failures": [{"what": "driver run", "detail": str(e)[-500:]}]})
+    chk.obligation("oracle: disposing a boundary never panics when a cleanup re-runs an effect that takes a suspense guard for it (%d scenarios)" % len(fcases), not ffail, str(ffail[:1]))
+    # (run_impl overwrote the per-scenario side tables: restore those of the main run)
+    asyncgen.AGAIN[:] = again
+    asyncgen.GLOB[:] = glob
     model = None
     vlib.coq_make(["theories/Async/Suspense.vo"])
     try:
@@ -174,7 +200,7 @@ def main(argv):
     except RuntimeError as e:
         broken.append("model evaluation: " + str(e)[-500:])
         chk.obligation("model evaluation", False, str(e))
-    mism, orfail = [], list(afail) + list(ufail)
+    mism, orfail = [], list(afail) + list(ufail) + list(ffail)
     for i, ((prog, steps), lines) in enumerate(zip(cases, impl)):
         key = asyncgen.sx_nodes(prog) + asyncgen.sx_steps(steps)
         fails = oracle(prog, steps, lines, glob[i] if i < len(glob) else None)
